@@ -4,10 +4,19 @@ import Aiorpcx.Facts.C02
 # C02 — every incoming request is answered exactly once under its own id
 
 Model: `Aiorpcx.C02` (`Model.lean`) mirrors `_receive_request_batch` / `item_send_result` /
-`_send_result` of `aiorpcx/jsonrpc.py`.  `replies max inc encLen ms calls` is the list of batch
-messages that leave the connection for a received batch with composition `ms` when the request
-handlers deliver their results in the order `calls`.  All theorems are quantified over every
-composition, every completion order, every result, every id, every `max`, `inc`, `encLen`.
+`_send_result` / the request branch of `receive_message` of `aiorpcx/jsonrpc.py` and the
+send-once discipline of `RPCSession._throttled_request`.
+
+`replies max inc encLen ms calls` is the list of batch messages that leave the connection for a
+received batch with composition `ms` when the request handlers deliver their results in the
+order `calls`.  A delivery is `(member index, result)` only: the id an entry is sent under is the
+one the member's item was bound to when `_receive_request_batch` created it
+(`partial(item_send_result, request_id)`), so "entry `k` carries member `k`'s own id" is a
+theorem about the model (`boundId_scan`), not a hypothesis; `late_binding_refuted` shows the
+theorems exclude a closure that captures the loop variable instead.
+
+All theorems are quantified over every composition, every completion order, every result, every
+id, every `max`, `inc`, `encLen`.
 -/
 namespace Aiorpcx.C02
 open List
@@ -27,80 +36,260 @@ theorem receiveBatch_of_req (ms : List Mem) (h : reqMembers 0 ms ≠ []) :
     | true => exact absurd (h3.1 he).1 h
   simp only [this, Bool.false_and, Bool.false_eq_true, ↓reduceIte, h1, h2]
 
+/-- every delivery of a complete order goes to an item with a `send_result`, bound to the id
+    the member carries in the composition -/
+theorem deliveries_bound (ms : List Mem) (calls : List (Call R))
+    (hperm : calls.map (·.1) ~ reqIdx ms) :
+    ∀ c ∈ calls, ∃ id, boundId (scan (R := R) 0 ms).1 c.1 = some id := by
+  intro c hc
+  have hm : c.1 ∈ reqIdx ms := hperm.mem_iff.1 (mem_map_of_mem hc)
+  obtain ⟨id, hid⟩ := lookupId_isSome (l := reqMembers 0 ms) hm
+  exact ⟨id, by rw [boundId_scan]; exact hid⟩
+
+theorem entriesFrom_get (max inc : Nat) (encLen : Id → R → Nat) :
+    ∀ (cs : List (BCall R)) (s k : Nat) (hk : k < cs.length),
+      (entriesFrom max inc encLen s cs)[k]? = some (.res (cs[k]).1 (cs[k]).2.1 (cs[k]).2.2) ∨
+      (entriesFrom max inc encLen s cs)[k]? = some (.big (cs[k]).1 (cs[k]).2.1)
+  | [], _, _, hk => by simp at hk
+  | c :: cs, s, 0, _ => by
+    simp only [entriesFrom, getElem?_cons_zero, getElem_cons_zero]
+    split
+    · exact Or.inr rfl
+    · exact Or.inl rfl
+  | c :: cs, s, k + 1, hk => by
+    simp only [entriesFrom, getElem?_cons_succ, getElem_cons_succ]
+    exact entriesFrom_get max inc encLen cs _ k (by simpa using hk)
+
 /-- **batch_one_reply.**  A batch with at least one request member, whose request members
-    deliver their results in **any order** `calls` (a permutation of the request members):
+    deliver their results in **any order** `calls` (each request member's index exactly once):
     the first `count − 1` calls of `send_result` return nothing, the last returns the one batch
-    response; its entries are the error entries of the invalid members in member order followed
-    by one entry per request member in completion order; entry `k` of that part answers the
-    `k`-th completed member under that member's own id; the number of entries is
-    #requests + #invalid. -/
+    response `es`; `es` = the error entries of the invalid members in member order followed by
+    `tail`, one entry per delivery in completion order; the number of entries is
+    #requests + #invalid; and entry `k` of `tail` answers the `k`-th completed member: it is
+    that member's result (or the "too large" error) **under the id that member carries in the
+    composition** (`ms[m]? = some (.req id)`) - equal ids of different members included. -/
 theorem batch_one_reply (max inc : Nat) (encLen : Id → R → Nat) (ms : List Mem)
-    (calls : List (Call R)) (hperm : calls.map (fun c => (c.1, c.2.1)) ~ reqMembers 0 ms)
+    (calls : List (Call R)) (hperm : calls.map (·.1) ~ reqIdx ms)
     (hne : reqMembers 0 ms ≠ []) :
-    ∃ (b : ReqBatch R) (its : List (Nat × Mem)) (es : List (Entry R)),
+    ∃ (b : ReqBatch R) (its : List Item) (es tail : List (Entry R)),
       receiveBatch ms = .items its b ∧
-      runCalls max inc encLen b calls = replicate (calls.length - 1) none ++ [some es] ∧
+      runCalls max inc encLen its b calls = replicate (calls.length - 1) none ++ [some es] ∧
       replies max inc encLen ms calls = [es] ∧
-      es = errEntries 0 ms ++ entriesFrom max inc encLen 0 calls ∧
+      es = errEntries 0 ms ++ tail ∧
+      tail = entriesFrom max inc encLen 0 (resolve its calls) ∧
       es.length = (reqMembers 0 ms).length + (errEntries (R := R) 0 ms).length ∧
-      (entriesFrom max inc encLen 0 calls).map (fun e => (e.member, e.id))
-        = calls.map (fun c => (c.1, c.2.1)) := by
+      tail.length = calls.length ∧
+      ∀ (k : Nat) (hk : k < calls.length), ∃ id,
+        ms[(calls[k]).1]? = some (.req id) ∧
+        (tail[k]? = some (.res (calls[k]).1 id (calls[k]).2) ∨
+         tail[k]? = some (.big (calls[k]).1 id)) := by
   have hlen : calls.length = (reqMembers 0 ms).length := by
-    simpa using hperm.length_eq
+    have := hperm.length_eq
+    simpa [reqIdx] using this
   have hcne : calls ≠ [] := by
     intro h; subst h
     exact hne (List.length_eq_zero_iff.1 (by simpa using hlen.symm))
   have hrecv := receiveBatch_of_req (R := R) ms hne
-  have hrun := runCalls_complete max inc encLen calls
-    ⟨errEntries 0 ms, (reqMembers 0 ms).length + (errEntries (R := R) 0 ms).length, 0⟩ hcne
-    (by simp only; omega)
-  refine ⟨_, _, _, hrecv, hrun, ?_, rfl, ?_, entriesFrom_keys _ _ _ _ _⟩
+  have hb := deliveries_bound ms calls hperm
+  obtain ⟨rl, rmap, rids⟩ := resolve_spec (scan (R := R) 0 ms).1 calls hb
+  have hrne : resolve (scan (R := R) 0 ms).1 calls ≠ [] := by
+    intro h
+    rw [h] at rl
+    exact hcne (List.length_eq_zero_iff.1 rl.symm)
+  have hrun := runBound_complete max inc encLen (resolve (scan (R := R) 0 ms).1 calls)
+    ⟨errEntries 0 ms, (reqMembers 0 ms).length + (errEntries (R := R) 0 ms).length, 0⟩ hrne
+    (by simp only [rl]; omega)
+  rw [← runCalls_resolved max inc encLen _ calls _ hb, rl] at hrun
+  refine ⟨_, _, _, _, hrecv, hrun, ?_, rfl, rfl, ?_, ?_, ?_⟩
   · simp only [replies, hrecv, hrun]
     simp [filterMap_append, filterMap_replicate_of_none]
-  · simp [length_entriesFrom, hlen]; omega
+  · simp [length_entriesFrom, rl, hlen]; omega
+  · simp [length_entriesFrom, rl]
+  · intro k hk
+    have hk' : k < (resolve (scan (R := R) 0 ms).1 calls).length := by omega
+    have hck : calls[k] = (((resolve (scan (R := R) 0 ms).1 calls)[k]).1,
+        ((resolve (scan (R := R) 0 ms).1 calls)[k]).2.2) := by
+      have := congrArg (fun l => l[k]?) rmap
+      simp only [getElem?_map, getElem?_eq_getElem hk', getElem?_eq_getElem hk, Option.map_some,
+        Option.some.injEq] at this
+      exact this.symm
+    have hid := rids _ (getElem_mem hk')
+    rw [boundId_scan] at hid
+    have hmem := (mem_reqMembers 0 ms _ _).1 (lookupId_mem hid)
+    refine ⟨((resolve (scan (R := R) 0 ms).1 calls)[k]).2.1, ?_, ?_⟩
+    · rw [hck]; simpa using hmem.2
+    · rw [hck]
+      exact entriesFrom_get max inc encLen _ 0 k hk'
 
 /-- non-vacuity of `batch_one_reply`: `[invalid, req 7, notif, req 7, req "a"]` (duplicate ids),
     completed in the order 4, 1, 3: one reply `[err₀, res₄, res₁, res₃]`, ids in that order. -/
 example :
     let ms : List Mem := [.invalid .null, .req (.int 7), .notif, .req (.int 7), .req (.str [97])]
-    let calls : List (Call Nat) := [(4, .str [97], 40), (1, .int 7, 10), (3, .int 7, 30)]
-    calls.map (fun c => (c.1, c.2.1)) ~ reqMembers 0 ms ∧
+    let calls : List (Call Nat) := [(4, 40), (1, 10), (3, 30)]
+    calls.map (·.1) ~ reqIdx ms ∧
     replies 0 2 (fun _ _ => 5) ms calls =
       [[.err 0 .null, .res 4 (.str [97]) 40, .res 1 (.int 7) 10, .res 3 (.int 7) 30]] := by
   decide
 
+theorem runCalls_incomplete (max inc : Nat) (encLen : Id → R → Nat) (its : List Item) :
+    ∀ (cs : List (Call R)) (b : ReqBatch R), b.parts.length + cs.length < b.count →
+      runCalls max inc encLen its b cs = replicate cs.length none
+  | [], _, _ => rfl
+  | c :: cs, b, hc => by
+    simp only [length_cons] at hc
+    cases hid : boundId its c.1 with
+    | none =>
+      have ih := runCalls_incomplete max inc encLen its cs b (by omega)
+      simp only [runCalls, hid, ih, length_cons, replicate_succ]
+    | some id =>
+      have ih := runCalls_incomplete max inc encLen its cs (sendResult max inc encLen b c.1 id c.2).1
+        (by simp only [sendResult, length_append, length_cons, length_nil]; omega)
+      have hne : ((b.parts ++ [if (b.size + encLen id c.2 + inc > max && max > 0) = true
+          then Entry.big c.1 id else Entry.res c.1 id c.2]).length == b.count) = false := by
+        simp only [length_append, length_cons, length_nil, beq_eq_false_iff_ne]; omega
+      simp only [runCalls, hid, ih, length_cons, replicate_succ]
+      simp only [sendResult, hne, Bool.false_eq_true, ↓reduceIte]
+
 /-- **no_early_reply.**  While at least one request member has not delivered its result, no
-    call of `send_result` returns a message: the batch response is sent only when every member
-    has its result. -/
+    call of `send_result` returns a message, whatever has been delivered so far: the batch
+    response is sent only when every member has its result. -/
 theorem no_early_reply (max inc : Nat) (encLen : Id → R → Nat) (ms : List Mem)
     (calls : List (Call R)) (hne : reqMembers 0 ms ≠ [])
     (hlt : calls.length < (reqMembers 0 ms).length) :
     replies max inc encLen ms calls = [] := by
   have hrecv := receiveBatch_of_req (R := R) ms hne
   simp only [replies, hrecv]
-  rw [runCalls_incomplete _ _ _ _ _ (by simp only; omega)]
+  rw [runCalls_incomplete _ _ _ _ _ _ (by simp only; omega)]
   simp [filterMap_replicate_of_none]
 
 /-- non-vacuity of `no_early_reply`: two of three request members have delivered -/
 example :
     replies 0 2 (fun _ (_ : Nat) => 5)
-      [.req (.int 1), .invalid .null, .req (.int 2), .req (.int 3)] [(3, .int 3, 30), (0, .int 1, 10)]
+      [.req (.int 1), .invalid .null, .req (.int 2), .req (.int 3)] [(3, 30), (0, 10)]
       = [] := by decide
 
 /-- **duplicate_ids_ok.**  Entries are bound to members, not to id values: whatever ids the
-    members carry (equal ids included), the `k`-th completed member is answered by an entry with
-    that member's index and id. -/
-theorem duplicate_ids_ok (max inc : Nat) (encLen : Id → R → Nat) (calls : List (Call R)) (s : Nat)
-    (k : Nat) (hk : k < calls.length) :
-    ∃ h : k < (entriesFrom max inc encLen s calls).length,
-      ((entriesFrom max inc encLen s calls)[k]).member = (calls[k]).1 ∧
-      ((entriesFrom max inc encLen s calls)[k]).id = (calls[k]).2.1 := by
-  have hl := length_entriesFrom max inc encLen s calls
-  refine ⟨by omega, ?_⟩
-  have := congrArg (fun l => l[k]?) (entriesFrom_keys max inc encLen s calls)
-  simp only [getElem?_map, getElem?_eq_getElem hk, getElem?_eq_getElem (hl ▸ hk), Option.map_some,
-    Option.some.injEq, Prod.mk.injEq] at this
-  exact this
+    members carry (no injectivity assumed - equal ids included), the batch response contains
+    **exactly one** entry answering each request member, and that entry carries the id of that
+    very member. -/
+theorem duplicate_ids_ok (max inc : Nat) (encLen : Id → R → Nat) (ms : List Mem)
+    (calls : List (Call R)) (hperm : calls.map (·.1) ~ reqIdx ms)
+    (hne : reqMembers 0 ms ≠ []) :
+    ∃ es tail : List (Entry R), replies max inc encLen ms calls = [es] ∧
+      es = errEntries 0 ms ++ tail ∧
+      tail.map Entry.member ~ reqIdx ms ∧
+      (∀ m ∈ reqIdx ms, (tail.map Entry.member).count m = 1) ∧
+      ∀ e ∈ tail, ms[e.member]? = some (.req e.id) := by
+  obtain ⟨b, its, es, tail, _, _, hrep, hes, _, _, htl, hk⟩ :=
+    batch_one_reply max inc encLen ms calls hperm hne
+  have hmem : tail.map Entry.member = calls.map (·.1) := by
+    apply ext_getElem (by simp [htl])
+    intro k h1 h2
+    have hkc : k < calls.length := by simpa using h2
+    obtain ⟨id, _, h⟩ := hk k hkc
+    have hkt : k < tail.length := by omega
+    simp only [getElem_map]
+    rcases h with h | h <;>
+      (rw [getElem?_eq_getElem hkt] at h
+       simp only [Option.some.injEq] at h
+       rw [h]; rfl)
+  refine ⟨es, tail, hrep, hes, hmem ▸ hperm, ?_, ?_⟩
+  · intro m hm
+    rw [hmem, hperm.count_eq]
+    exact count_eq_one_of_nodup (reqIdx_nodup ms) hm
+  · intro e he
+    obtain ⟨k, hkt, rfl⟩ := getElem_of_mem he
+    have hkc : k < calls.length := by omega
+    obtain ⟨id, hms, h⟩ := hk k hkc
+    rcases h with h | h <;>
+      (rw [getElem?_eq_getElem hkt] at h
+       simp only [Option.some.injEq] at h
+       rw [h]; exact hms)
+
+/-- non-vacuity of `duplicate_ids_ok`: three members all with id 7 -/
+example :
+    let ms : List Mem := [.req (.int 7), .req (.int 7), .req (.int 7)]
+    let calls : List (Call Nat) := [(2, 20), (0, 0), (1, 10)]
+    calls.map (·.1) ~ reqIdx ms ∧
+    replies 0 2 (fun _ _ => 5) ms calls =
+      [[.res 2 (.int 7) 20, .res 0 (.int 7) 0, .res 1 (.int 7) 10]] := by decide
+
+/-- **late_binding_refuted.**  A closure capturing the loop variable `request_id` (instead of
+    `partial(item_send_result, request_id)`) is expressible in the model (`repliesLate`) and
+    violates what `batch_one_reply` states: there is a composition and a complete delivery order
+    whose reply has an entry that does **not** carry its member's id.  (With the real binding
+    this is impossible: `batch_one_reply`, `duplicate_ids_ok`.) -/
+theorem late_binding_refuted :
+    ∃ (ms : List Mem) (calls : List (Call Nat)) (es : List (Entry Nat)),
+      calls.map (·.1) ~ reqIdx ms ∧
+      repliesLate 0 2 (fun _ _ => 5) ms calls = [es] ∧
+      ∃ e ∈ es, ms[e.member]? ≠ some (.req e.id) :=
+  ⟨[.req (.int 1), .req (.int 2)], [(0, 10), (1, 20)],
+    [.res 0 (.int 2) 10, .res 1 (.int 2) 20], by decide, by decide,
+    .res 0 (.int 2) 10, by decide, by decide⟩
+
+/-- what was returned to batch `i` / the deliveries that went to batch `i` -/
+def forBatch {α : Type} (i : Nat) (l : List (Nat × α)) : List α :=
+  l.filterMap fun p => if p.1 = i then some p.2 else none
+
+/-- **batches_independent.**  With several request batches in flight on one connection and
+    their deliveries interleaved in **any** way, what the `send_result` calls of batch `i` return
+    is exactly what they would return if batch `i` were alone and received the same deliveries
+    in the same relative order: no state is shared between batches. -/
+theorem batches_independent (max inc : Nat) (encLen : Id → R → Nat) (i : Nat) :
+    ∀ (ds : List (Nat × Call R)) (bs : List (List Item × ReqBatch R)) (its : List Item)
+      (b : ReqBatch R), bs[i]? = some (its, b) →
+      forBatch i (runMulti max inc encLen bs ds) = runCalls max inc encLen its b (forBatch i ds)
+  | [], _, _, _, _ => rfl
+  | (j, c) :: ds, bs, its, b, hb => by
+    by_cases hd : j = i
+    · -- a delivery to batch i
+      subst hd
+      have hlt : j < bs.length := by
+        rcases Nat.lt_or_ge j bs.length with h | h
+        · exact h
+        · rw [getElem?_eq_none h] at hb; cases hb
+      cases hid : boundId its c.1 with
+      | none =>
+        have ih := batches_independent max inc encLen j ds bs its b hb
+        simp only [forBatch] at ih
+        simp only [runMulti, hb, hid, forBatch, filterMap_cons, ↓reduceIte, runCalls, ih]
+      | some id =>
+        have hset : (bs.set j (its, (sendResult max inc encLen b c.1 id c.2).1))[j]? =
+            some (its, (sendResult max inc encLen b c.1 id c.2).1) := getElem?_set_self hlt
+        have ih := batches_independent max inc encLen j ds _ its _ hset
+        simp only [forBatch] at ih
+        simp only [runMulti, hb, hid, forBatch, filterMap_cons, ↓reduceIte, runCalls, ih]
+    · -- a delivery to another batch leaves batch i as it is
+      have hskip : forBatch i ((j, c) :: ds) = forBatch i ds := by
+        simp [forBatch, hd]
+      rw [hskip]
+      cases hbd : bs[j]? with
+      | none =>
+        have ih := batches_independent max inc encLen i ds bs its b hb
+        simp only [forBatch] at ih ⊢
+        simp only [runMulti, hbd, filterMap_cons, hd, ↓reduceIte, ih]
+      | some ib =>
+        cases hid : boundId ib.1 c.1 with
+        | none =>
+          have ih := batches_independent max inc encLen i ds bs its b hb
+          simp only [forBatch] at ih ⊢
+          simp only [runMulti, hbd, hid, filterMap_cons, hd, ↓reduceIte, ih]
+        | some id =>
+          have ih := batches_independent max inc encLen i ds
+            (bs.set j (ib.1, (sendResult max inc encLen ib.2 c.1 id c.2).1)) its b
+            (by rw [getElem?_set_ne hd]; exact hb)
+          simp only [forBatch] at ih ⊢
+          simp only [runMulti, hbd, hid, filterMap_cons, hd, ↓reduceIte, ih]
+
+/-- non-vacuity: two batches `[req 7, req 7]` and `[invalid, req 7]`, deliveries interleaved
+    0.1, 1.1, 0.0: each gets its own reply, with its own entries -/
+example :
+    let b0 : List Item × ReqBatch Nat := ([.request 0 (.int 7), .request 1 (.int 7)], ⟨[], 2, 0⟩)
+    let b1 : List Item × ReqBatch Nat := ([.request 1 (.int 7)], ⟨[.err 0 .null], 2, 0⟩)
+    runMulti 0 2 (fun _ _ => 5) [b0, b1] [(0, 1, 10), (1, 1, 20), (0, 0, 30)] =
+      [(0, none), (1, some [.err 0 .null, .res 1 (.int 7) 20]),
+       (0, some [.res 1 (.int 7) 10, .res 0 (.int 7) 30])] := by decide
 
 theorem all_notif_members (R : Type) : ∀ (ms : List Mem), (∀ m ∈ ms, m = .notif) → ∀ i,
     reqMembers i ms = [] ∧ errEntries (R := R) i ms = []
@@ -111,20 +300,29 @@ theorem all_notif_members (R : Type) : ∀ (ms : List Mem), (∀ m ∈ ms, m = .
     simpa [reqMembers, errEntries] using ih
 
 /-- **batch_notifications_only_silent.**  A batch holding only notifications produces no
-    response, ever: nothing is raised, no item has a `send_result`, nothing is returned. -/
+    response, ever: nothing is raised, no item has a `send_result` (so whatever the session
+    "delivers" is ignored), nothing is returned. -/
 theorem batch_notifications_only_silent (max inc : Nat) (encLen : Id → R → Nat) (ms : List Mem)
-    (h : ∀ m ∈ ms, m = .notif) (calls : List (Call R))
-    (hperm : calls.map (fun c => (c.1, c.2.1)) ~ reqMembers 0 ms) :
-    reqMembers 0 ms = [] ∧ calls = [] ∧ replies max inc encLen ms calls = [] := by
+    (h : ∀ m ∈ ms, m = .notif) (calls : List (Call R)) :
+    reqMembers 0 ms = [] ∧ (∀ k, boundId (scan (R := R) 0 ms).1 k = none) ∧
+    replies max inc encLen ms calls = [] := by
   obtain ⟨hreq, herr⟩ := all_notif_members R ms h 0
-  have hc : calls = [] := by
-    have := hperm.length_eq
-    rw [hreq] at this
-    exact List.length_eq_zero_iff.1 (by simpa using this)
-  subst hc
-  refine ⟨hreq, rfl, ?_⟩
-  obtain ⟨h1, _, _⟩ := scan_spec (R := R) 0 ms
-  simp [replies, receiveBatch, h1, herr, runCalls]
+  obtain ⟨h1, h2, _⟩ := scan_spec (R := R) 0 ms
+  have hb : ∀ k, boundId (scan (R := R) 0 ms).1 k = none := by
+    intro k; rw [boundId_scan, hreq]; rfl
+  refine ⟨hreq, hb, ?_⟩
+  have hrun : ∀ (cs : List (Call R)) (b : ReqBatch R),
+      runCalls max inc encLen (scan (R := R) 0 ms).1 b cs = replicate cs.length none := by
+    intro cs
+    induction cs with
+    | nil => intro b; rfl
+    | cons c cs ih => intro b; simp only [runCalls, hb, ih, length_cons, replicate_succ]
+  simp only [replies, receiveBatch, h1, herr, isEmpty_nil, Bool.not_true, Bool.and_false,
+    Bool.false_eq_true, ↓reduceIte, hrun]
+  simp [filterMap_replicate_of_none]
+
+/-- non-vacuity: two notifications, and a (never happening) delivery to one of them -/
+example : replies 0 2 (fun _ (_ : Nat) => 5) [.notif, .notif] [(0, 1)] = [] := by decide
 
 /-- **batch_all_invalid_immediate.**  A batch all of whose members are invalid is answered at
     once (the raised `ProtocolError` carries the batch) with one error entry per member, in
@@ -155,13 +353,17 @@ theorem batch_all_invalid_immediate (max inc : Nat) (encLen : Id → R → Nat) 
     simp [receiveBatch, hemp, h1, hparts]
   exact ⟨hr, by simp [replies, hr], c⟩
 
+/-- non-vacuity of `batch_all_invalid_immediate` -/
+example : replies 0 2 (fun _ (_ : Nat) => 5) [.invalid .null, .invalid (.int 3)] []
+    = [[.err 0 .null, .err 1 (.int 3)]] := by decide
+
 /-! ## F8: notifications + invalid members, no request -/
 
 /-- the full statement of "exactly one batch response": whenever the batch calls for entries
     (a request or an invalid member), exactly one batch message is sent and it contains them -/
 def batch_reply_full (R : Type) : Prop :=
   ∀ (max inc : Nat) (encLen : Id → R → Nat) (ms : List Mem) (calls : List (Call R)),
-    calls.map (fun c => (c.1, c.2.1)) ~ reqMembers 0 ms →
+    calls.map (·.1) ~ reqIdx ms →
     (reqMembers 0 ms ≠ [] ∨ errEntries (R := R) 0 ms ≠ []) →
     ∃ es, replies max inc encLen ms calls = [es] ∧
       es.length = (reqMembers 0 ms).length + (errEntries (R := R) 0 ms).length
@@ -193,12 +395,12 @@ example :
     replies 0 2 (fun _ (_ : Nat) => 5) [.notif, .invalid (.int 3), .notif] [] = [] ∧
     replies 0 2 (fun _ (_ : Nat) => 5) [.invalid .null, .invalid (.int 3)] []
       = [[.err 0 .null, .err 1 (.int 3)]] ∧
-    replies 0 2 (fun _ (_ : Nat) => 5) [.req (.int 1), .invalid (.int 3)] [(0, .int 1, 10)]
+    replies 0 2 (fun _ (_ : Nat) => 5) [.req (.int 1), .invalid (.int 3)] [(0, 10)]
       = [[.err 1 (.int 3), .res 0 (.int 1) 10]] := by decide
 
 /-- **batch_reply_partial.**  Outside that family the full statement holds. -/
 theorem batch_reply_partial (max inc : Nat) (encLen : Id → R → Nat) (ms : List Mem)
-    (calls : List (Call R)) (hperm : calls.map (fun c => (c.1, c.2.1)) ~ reqMembers 0 ms)
+    (calls : List (Call R)) (hperm : calls.map (·.1) ~ reqIdx ms)
     (hsome : reqMembers 0 ms ≠ [] ∨ errEntries (R := R) 0 ms ≠ [])
     (hside : ¬ (reqMembers 0 ms = [] ∧ 0 < notifCount ms)) :
     ∃ es, replies max inc encLen ms calls = [es] ∧
@@ -217,8 +419,45 @@ theorem batch_reply_partial (max inc : Nat) (encLen : Id → R → Nat) (ms : Li
       | cons _ _ => rfl
     refine ⟨errEntries 0 ms, ?_, by simp [hreq]⟩
     simp [replies, receiveBatch, hemp, h1, hparts]
-  · obtain ⟨_, _, es, _, _, h3, _, h5, _⟩ := batch_one_reply max inc encLen ms calls hperm hreq
+  · obtain ⟨_, _, es, _, _, _, h3, _, _, h5, _⟩ := batch_one_reply max inc encLen ms calls hperm hreq
     exact ⟨es, h3, h5⟩
+
+/-! ## single messages -/
+
+/-- **single_request_one_reply.**  A single well-formed request is answered by exactly one
+    message, under the id the request carries (the id `receive_message` bound into its
+    `send_result`), whatever the handler delivers: the result if the limit is 0 or the encoded
+    response is not larger than the limit, otherwise the "too large" error - same id. -/
+theorem single_request_one_reply (max : Nat) (encLen : Id → R → Nat) (id : Id) (r : R) :
+    ∃ e, repliesSingle max encLen (.req id) r = [e] ∧ e.id = id ∧
+      ((max = 0 ∨ encLen id r ≤ max) → e = .res 0 id r) ∧
+      ((0 < max ∧ max < encLen id r) → e = .big 0 id) := by
+  refine ⟨sendResultSingle max encLen id r, rfl, ?_, ?_, ?_⟩
+  · unfold sendResultSingle; split <;> rfl
+  · rintro (h | h)
+    · subst h; simp [sendResultSingle]
+    · have : ¬ (encLen id r > max) := by omega
+      simp [sendResultSingle, this]
+  · rintro ⟨h1, h2⟩
+    simp [sendResultSingle, h1, h2]
+
+/-- **single_notification_silent.**  Nothing is ever emitted for a single notification: the
+    item has no `send_result`, whatever its handler returns is dropped. -/
+theorem single_notification_silent (max : Nat) (encLen : Id → R → Nat) (r : R) :
+    repliesSingle max encLen .notif r = [] ∧
+    receiveSingle .notif = .item (.notification 0) ∧ boundId [.notification 0] 0 = none :=
+  ⟨rfl, rfl, rfl⟩
+
+/-- an invalid single message is answered at once by one error response under the recovered
+    id (not a clause of the property text: model/implementation comparison only) -/
+theorem single_invalid_error_reply (max : Nat) (encLen : Id → R → Nat) (id : Id) (r : R) :
+    repliesSingle max encLen (.invalid id) r = [.err 0 id] := rfl
+
+/-- non-vacuity: a 10-byte response is kept at limit 10 and replaced at limit 9 -/
+example :
+    repliesSingle 10 (fun _ (_ : Nat) => 10) (.req (.int 4)) 0 = [.res 0 (.int 4) 0] ∧
+    repliesSingle 9 (fun _ (_ : Nat) => 10) (.req (.int 4)) 0 = [.big 0 (.int 4)] ∧
+    repliesSingle 9 (fun _ (_ : Nat) => 10) .notif 0 = [] := by decide
 
 /-! ## max_response_size -/
 
@@ -238,15 +477,38 @@ theorem oversize_single (max : Nat) (encLen : Id → R → Nat) (id : Id) (r : R
   · rintro ⟨h1, h2⟩
     simp [h1, h2]
 
-/-- **oversize_batch.**  In a batch response, entry `j` of the results part is the real result
-    exactly while the running size (the lengths of the results delivered so far, each plus `inc`)
-    is within the limit (or the limit is 0); otherwise it is the "too large" error.  Either
-    way it carries member `j`'s id (`duplicate_ids_ok`). -/
-theorem oversize_batch (max inc : Nat) (encLen : Id → R → Nat) (calls : List (Call R)) (j : Nat)
+/-- **oversize_batch.**  In a batch response (`tail` of `batch_one_reply`), entry `j` of the
+    results part is the real result exactly while the *running size* (the lengths of the results
+    delivered so far, each plus `inc`) is within the limit (or the limit is 0); otherwise it is
+    the "too large" error.  Either way it carries member `j`'s id (`batch_one_reply`).  Note what
+    the running size does **not** contain: the error entries of invalid members, and the size
+    of the replacement entries themselves. -/
+theorem oversize_batch (max inc : Nat) (encLen : Id → R → Nat) (calls : List (BCall R)) (j : Nat)
     (hj : j < (entriesFrom max inc encLen 0 calls).length) :
     ((entriesFrom max inc encLen 0 calls)[j]).isReal =
       (max == 0 || decide (sizeAfter inc encLen 0 (calls.take (j + 1)) ≤ max)) :=
   entriesFrom_real max inc encLen calls 0 j hj
+
+/-- **oversize_entry_replaced** (what the text's clause says for one entry): an entry whose own
+    encoded response is larger than the limit is never the real result. -/
+theorem oversize_entry_replaced (max inc : Nat) (encLen : Id → R → Nat) (calls : List (BCall R))
+    (j : Nat) (hj : j < (entriesFrom max inc encLen 0 calls).length) (hmax : 0 < max)
+    (hbig : max < encLen (calls[j]'(by simpa [length_entriesFrom] using hj)).2.1
+      (calls[j]'(by simpa [length_entriesFrom] using hj)).2.2) :
+    ((entriesFrom max inc encLen 0 calls)[j]).isReal = false := by
+  rw [oversize_batch max inc encLen calls j hj]
+  have hjc : j < calls.length := by simpa [length_entriesFrom] using hj
+  have hge : encLen (calls[j]).2.1 (calls[j]).2.2 ≤ sizeAfter inc encLen 0 (calls.take (j + 1)) := by
+    unfold sizeAfter
+    have hmem : calls[j] ∈ calls.take (j + 1) := by
+      rw [List.mem_take_iff_getElem]
+      exact ⟨j, by omega, rfl⟩
+    have := le_sum_of_mem (l := (calls.take (j + 1)).map fun c => encLen c.2.1 c.2.2 + inc)
+      (x := encLen (calls[j]).2.1 (calls[j]).2.2 + inc)
+      (mem_map.2 ⟨calls[j], hmem, rfl⟩)
+    omega
+  have h0 : (max == 0) = false := by simp; omega
+  simp [h0]; omega
 
 /-- non-vacuity of `oversize_batch` / `oversize_single`: results of 10 bytes each, increment 2,
     limit 25: the first two entries fit (12, 24), the third (36) is replaced and keeps its id; a
@@ -261,12 +523,13 @@ example :
 def batchLen (sep br : Nat) (lens : List Nat) : Nat := lens.sum + sep * (lens.length - 1) + br
 
 /-- the running size accounts for at least the bytes of the batch message made of the results
-    delivered so far, provided `inc` covers the separator and the brackets -/
+    delivered so far, provided `inc` covers the separator and the brackets.  (About the results
+    only: error entries of invalid members and replacement entries are in neither side.) -/
 theorem accounted_size_bounds_batch (sep br inc : Nat) (hs : sep ≤ inc) (hb : br ≤ inc)
-    (encLen : Id → R → Nat) (calls : List (Call R)) (hne : calls ≠ []) :
+    (encLen : Id → R → Nat) (calls : List (BCall R)) (hne : calls ≠ []) :
     batchLen sep br (calls.map fun c => encLen c.2.1 c.2.2) ≤ sizeAfter inc encLen 0 calls := by
   unfold batchLen sizeAfter
-  have key : ∀ (l : List (Call R)), (l.map fun c => encLen c.2.1 c.2.2 + inc).sum
+  have key : ∀ (l : List (BCall R)), (l.map fun c => encLen c.2.1 c.2.2 + inc).sum
       = (l.map fun c => encLen c.2.1 c.2.2).sum + inc * l.length := by
     intro l
     induction l with
@@ -280,15 +543,393 @@ theorem accounted_size_bounds_batch (sep br inc : Nat) (hs : sep ≤ inc) (hb : 
     rw [this]; simp [Nat.mul_succ]
   omega
 
+/-! ### what is bounded in a batch response, and what is not -/
+
+/-- encoded length of one entry of a response: a real result as `encLen` says, an error entry
+    for an invalid member `errLen`, a "too large" replacement `bigLen` (both ≈ 90-100 bytes in
+    the real protocols; here arbitrary) -/
+def entryLen (encLen : Id → R → Nat) (errLen bigLen : Nat) : Entry R → Nat
+  | .res _ id r => encLen id r
+  | .err _ _ => errLen
+  | .big _ _ => bigLen
+
+/-- the encoded length of a batch response -/
+def wireLen (sep br : Nat) (encLen : Id → R → Nat) (errLen bigLen : Nat) (es : List (Entry R)) :
+    Nat := batchLen sep br (es.map (entryLen encLen errLen bigLen))
+
+theorem batchLen_le_accounted (sep br inc : Nat) (hs : sep ≤ inc) (hb : br ≤ inc) :
+    ∀ (lens : List Nat), lens ≠ [] → batchLen sep br lens ≤ (lens.map (· + inc)).sum
+  | [], h => absurd rfl h
+  | x :: l, _ => by
+    have key : ∀ (l : List Nat), (l.map (· + inc)).sum = l.sum + inc * l.length := by
+      intro l
+      induction l with
+      | nil => simp
+      | cons c l ih => simp only [map_cons, sum_cons, length_cons, ih, Nat.mul_succ]; omega
+    unfold batchLen
+    rw [key]
+    simp only [length_cons, Nat.add_sub_cancel, Nat.mul_succ]
+    have h1 : sep * l.length ≤ inc * l.length := Nat.mul_le_mul_right _ hs
+    omega
+
+/-- **kept_results_within_limit.**  Unconditionally (any deliveries; invalid members and
+    replaced entries do not matter): the real results that are *kept* in a batch response,
+    joined as a batch of their own, are not larger than the limit.  This - not the size of the
+    whole batch response - is what `max_response_size` bounds for a batch. -/
+theorem kept_results_within_limit (sep br inc : Nat) (hs : sep ≤ inc) (hb : br ≤ inc)
+    (max : Nat) (hmax : 0 < max) (encLen : Id → R → Nat) (errLen bigLen : Nat)
+    (calls : List (BCall R))
+    (hne : (entriesFrom max inc encLen 0 calls).filter Entry.isReal ≠ []) :
+    wireLen sep br encLen errLen bigLen ((entriesFrom max inc encLen 0 calls).filter Entry.isReal)
+      ≤ max := by
+  have hacc := real_entries_accounted max inc encLen hmax calls 0 (Nat.zero_le _)
+  have hall : ∀ e ∈ (entriesFrom max inc encLen 0 calls).filter Entry.isReal, e.isReal = true :=
+    fun e he => (mem_filter.1 he).2
+  generalize (entriesFrom max inc encLen 0 calls).filter Entry.isReal = l at hacc hne hall
+  have hmap : l.map (entryLen encLen errLen bigLen) = l.map (resLen encLen) := by
+    apply map_congr_left
+    intro e he
+    have := hall e he
+    cases e <;> simp_all [Entry.isReal, entryLen, resLen]
+  have h := batchLen_le_accounted sep br inc hs hb (l.map (resLen encLen)) (by simpa using hne)
+  unfold wireLen
+  rw [hmap]
+  simp only [map_map] at h
+  have : ((fun x => x + inc) ∘ resLen encLen) = fun e => resLen encLen e + inc := rfl
+  rw [this] at h
+  omega
+
+theorem errEntries_not_real : ∀ (i : Nat) (ms : List Mem),
+    (errEntries (R := R) i ms).filter Entry.isReal = []
+  | _, [] => rfl
+  | i, m :: ms => by
+    cases m <;> simp [errEntries, Entry.isReal, errEntries_not_real (i + 1) ms]
+
+/-- **batch_kept_results_within_limit.**  The same for the batch response of any composition
+    in any completion order: whatever invalid members it has and whatever was replaced, the real
+    results it contains, as a batch of their own, are not larger than the limit. -/
+theorem batch_kept_results_within_limit (sep br inc : Nat) (hs : sep ≤ inc) (hb : br ≤ inc)
+    (max : Nat) (hmax : 0 < max) (encLen : Id → R → Nat) (errLen bigLen : Nat) (ms : List Mem)
+    (calls : List (Call R)) (hperm : calls.map (·.1) ~ reqIdx ms) (hne : reqMembers 0 ms ≠ [])
+    (es : List (Entry R)) (hrep : replies max inc encLen ms calls = [es])
+    (hkept : es.filter Entry.isReal ≠ []) :
+    wireLen sep br encLen errLen bigLen (es.filter Entry.isReal) ≤ max := by
+  obtain ⟨b, its, es', tail, _, _, hrep', hes, htail, _, _, _⟩ :=
+    batch_one_reply max inc encLen ms calls hperm hne
+  have : es = es' := by rw [hrep] at hrep'; simpa using hrep'
+  subst this
+  have hf : es.filter Entry.isReal = tail.filter Entry.isReal := by
+    rw [hes, filter_append, errEntries_not_real, nil_append]
+  rw [hf] at hkept ⊢
+  rw [htail] at hkept ⊢
+  exact kept_results_within_limit sep br inc hs hb max hmax encLen errLen bigLen _ hkept
+
+/-- non-vacuity: limit 78, `[invalid ×3, request 76 bytes]`: the one kept result as a batch of
+    its own is 78 bytes (the whole response is 381) -/
+example :
+    wireLen 2 2 (fun _ (_ : Nat) => 76) 99 94
+      (([.err 0 .null, .err 1 .null, .err 2 .null, .res 3 (.int 1) 0] : List (Entry Nat)).filter
+        Entry.isReal) = 78 := by decide
+
+/-- **batch_within_limit** (the whole-batch bound, with its exact side-condition): a batch
+    response **without error entries for invalid members** in which **no entry was replaced**
+    is not larger than `max_response_size`. -/
+theorem batch_within_limit (sep br inc : Nat) (hs : sep ≤ inc) (hb : br ≤ inc)
+    (max : Nat) (hmax : 0 < max) (encLen : Id → R → Nat) (errLen bigLen : Nat) (ms : List Mem)
+    (calls : List (Call R)) (hperm : calls.map (·.1) ~ reqIdx ms) (hne : reqMembers 0 ms ≠ [])
+    (hnoinv : errEntries (R := R) 0 ms = [])
+    (es : List (Entry R)) (hrep : replies max inc encLen ms calls = [es])
+    (hreal : ∀ e ∈ es, e.isReal = true) :
+    wireLen sep br encLen errLen bigLen es ≤ max := by
+  obtain ⟨b, its, es', tail, _, _, hrep', hes, htail, _, htl, _⟩ :=
+    batch_one_reply max inc encLen ms calls hperm hne
+  have : es = es' := by rw [hrep] at hrep'; simpa using hrep'
+  subst this
+  rw [hnoinv, nil_append] at hes
+  subst hes
+  have hfilter : es.filter Entry.isReal = es := filter_eq_self.2 hreal
+  have hcne : es ≠ [] := by
+    intro h
+    have hl : calls.length = (reqMembers 0 ms).length := by
+      have := hperm.length_eq; simpa [reqIdx] using this
+    rw [h] at htl
+    exact hne (List.length_eq_zero_iff.1 (by simp at htl; omega))
+  have h := kept_results_within_limit sep br inc hs hb max hmax encLen errLen bigLen
+    (resolve its calls) (by rw [← htail, hfilter]; exact hcne)
+  rw [← htail, hfilter] at h
+  exact h
+
+/-- the unrestricted statement one might read into "a response larger than the maximum is
+    replaced": every batch response sent under a limit is within the limit -/
+def batch_within_limit_full (R : Type) : Prop :=
+  ∀ (sep br inc : Nat), sep ≤ inc → br ≤ inc → ∀ (max : Nat), 0 < max →
+    ∀ (encLen : Id → R → Nat) (errLen bigLen : Nat) (ms : List Mem) (calls : List (Call R)),
+      calls.map (·.1) ~ reqIdx ms → reqMembers 0 ms ≠ [] →
+      ∀ es, replies max inc encLen ms calls = [es] →
+        wireLen sep br encLen errLen bigLen es ≤ max
+
+/-- **batch_within_limit_full_fails.**  It does not hold.  Witness (measured on the real code,
+    JSON-RPC 2.0): limit 78, batch `[5, 6, 7, request]` whose result encodes to 76 bytes: the
+    running size is 78, the result is **kept**, the response is 381 bytes (three 99-byte error
+    entries for the invalid members are not accounted). -/
+theorem batch_within_limit_full_fails : ¬ batch_within_limit_full Nat := by
+  intro h
+  have := h 2 2 2 (by decide) (by decide) 78 (by decide) (fun _ _ => 76) 99 94
+    [.invalid .null, .invalid .null, .invalid .null, .req (.int 1)] [(3, 0)]
+    (by decide) (by decide)
+    [.err 0 .null, .err 1 .null, .err 2 .null, .res 3 (.int 1) 0] (by decide)
+  revert this
+  decide
+
+/-- both halves of the side-condition of `batch_within_limit` are needed: with invalid members
+    the response is 381 > 78 bytes although nothing was replaced; without invalid members, limit
+    10 and three requests, every entry is replaced and the response is 288 > 10 bytes. -/
+example :
+    replies 78 2 (fun _ (_ : Nat) => 76)
+        [.invalid .null, .invalid .null, .invalid .null, .req (.int 1)] [(3, 0)]
+      = [[.err 0 .null, .err 1 .null, .err 2 .null, .res 3 (.int 1) 0]] ∧
+    wireLen 2 2 (fun _ (_ : Nat) => 76) 99 94
+      [.err 0 .null, .err 1 .null, .err 2 .null, .res 3 (.int 1) 0] = 381 ∧
+    replies 10 2 (fun _ (_ : Nat) => 41) [.req (.int 1), .req (.int 2), .req (.int 3)]
+        [(0, 0), (1, 0), (2, 0)]
+      = [[.big 0 (.int 1), .big 1 (.int 2), .big 2 (.int 3)]] ∧
+    wireLen 2 2 (fun _ (_ : Nat) => 41) 99 94
+      [.big 0 (.int 1), .big 1 (.int 2), .big 2 (.int 3)] = 288 := by decide
+
+/-- non-vacuity of `batch_within_limit`: two 10-byte results under limit 24 are both kept and
+    the response is exactly 24 bytes -/
+example :
+    replies 24 2 (fun _ (_ : Nat) => 10) [.req (.int 1), .req (.int 2)] [(1, 0), (0, 0)]
+      = [[.res 1 (.int 2) 0, .res 0 (.int 1) 0]] ∧
+    wireLen 2 2 (fun _ (_ : Nat) => 10) 99 94 [.res 1 (.int 2) 0, .res 0 (.int 1) 0] = 24 := by
+  decide
+
+/-! ## `RPCSession._throttled_request`: `send_result` is called exactly once -/
+
+/-- the `send_result` calls among the actions -/
+def sendCalls : List (Act R) → List (Res R)
+  | [] => []
+  | .sendResult r :: as => r :: sendCalls as
+  | .wrote _ :: as => sendCalls as
+
+/-- the messages written among the actions -/
+def writes : List (Act R) → List (Res R)
+  | [] => []
+  | .wrote r :: as => r :: writes as
+  | .sendResult _ :: as => writes as
+
+theorem sendCalls_append (a b : List (Act R)) : sendCalls (a ++ b) = sendCalls a ++ sendCalls b := by
+  induction a with
+  | nil => rfl
+  | cons x a ih => cases x <;> simp [sendCalls, ih]
+
+theorem writes_append (a b : List (Act R)) : writes (a ++ b) = writes a ++ writes b := by
+  induction a with
+  | nil => rfl
+  | cons x a ih => cases x <;> simp [writes, ih]
+
+/-- what decides the result: the first `ret` / `timeout` event -/
+def firstOutcome : List (Ev R) → Option (Res R)
+  | [] => none
+  | .ret r :: _ => some (.value r)
+  | .timeout :: _ => some .busy
+  | .written :: es => firstOutcome es
+
+theorem trun_done (isReq msg : Bool) (res : Option (Res R)) (es : List (Ev R)) :
+    trun isReq msg (.done res) es = (.done res, []) := by
+  induction es with
+  | nil => rfl
+  | cons e es ih => simp [trun, tstep, ih]
+
+theorem trun_writing (isReq msg : Bool) (res : Res R) (es : List (Ev R)) :
+    sendCalls (trun isReq msg (.writing res) es).2 = [] ∧
+    (writes (trun isReq msg (.writing res) es).2 = [] ∨
+     writes (trun isReq msg (.writing res) es).2 = [res]) ∧
+    (.written ∈ es → writes (trun isReq msg (.writing res) es).2 = [res] ∧
+      (trun isReq msg (.writing res) es).1 = .done (some res)) := by
+  induction es with
+  | nil => simp [trun, sendCalls, writes]
+  | cons e es ih =>
+    cases e with
+    | written =>
+      simp [trun, tstep, trun_done, sendCalls, writes]
+    | ret r =>
+      simp only [trun, tstep, nil_append, mem_cons, reduceCtorEq, false_or]
+      exact ih
+    | timeout =>
+      simp only [trun, tstep, nil_append, mem_cons, reduceCtorEq, false_or]
+      exact ih
+
+/-- **task_sends_once.**  For **every** sequence of events (handler returning, the processing
+    timeout firing, the transport accepting the write - in any order, any number of times, the
+    timeout instant passing while the write is parked included) the task of a Request calls
+    `send_result` **at most once**; if the handler returns or the timeout fires at all, exactly
+    once - with the handler's result if it returned first, with SERVER_BUSY if the timeout fired
+    first; the task of a Notification never calls it; and a message is written at most once,
+    carrying exactly what `send_result` was called with. -/
+theorem task_sends_once (isReq msg : Bool) (es : List (Ev R)) :
+    let acts := (trun isReq msg .handling es).2
+    sendCalls acts = (if isReq then (firstOutcome es).toList else []) ∧
+    (writes acts = [] ∨ writes acts = sendCalls acts) ∧
+    (msg = false → writes acts = []) := by
+  induction es with
+  | nil => simp [trun, sendCalls, writes, firstOutcome]
+  | cons e es ih =>
+    cases e with
+    | written =>
+      simp only [trun, tstep, nil_append, firstOutcome]
+      exact ih
+    | ret r =>
+      cases isReq <;> cases msg <;>
+        simp [trun, tstep, trun_done, sendCalls, writes, firstOutcome]
+      · have := trun_writing (R := R) true true (.value r) es
+        rcases this with ⟨h1, h2, _⟩
+        simp only [h1, true_and]
+        rcases h2 with h2 | h2 <;> simp [h2]
+    | timeout =>
+      cases isReq <;> cases msg <;>
+        simp [trun, tstep, trun_done, sendCalls, writes, firstOutcome]
+      · have := trun_writing (R := R) true true .busy es
+        rcases this with ⟨h1, h2, _⟩
+        simp only [h1, true_and]
+        rcases h2 with h2 | h2 <;> simp [h2]
+
+/-- **task_reply_carries_result.**  If the handler returns `r` before any timeout and the
+    transport eventually accepts the write, exactly one message is written and it carries `r` -
+    whatever else happens in between (the timeout instant passing while the write is parked on a
+    full send buffer included). -/
+theorem task_reply_carries_result (pre post : List (Ev R)) (r : R)
+    (hpre : ∀ e ∈ pre, e = .written) (hw : .written ∈ post) :
+    let out := trun true true .handling (pre ++ .ret r :: post)
+    sendCalls out.2 = [.value r] ∧ writes out.2 = [.value r] ∧ out.1 = .done (some (.value r)) := by
+  induction pre with
+  | nil =>
+    have := trun_writing (R := R) true true (.value r) post
+    obtain ⟨h1, _, h3⟩ := this
+    obtain ⟨h3a, h3b⟩ := h3 hw
+    simp [trun, tstep, sendCalls, writes, h1, h3a, h3b]
+  | cons e pre ih =>
+    have he := hpre e (by simp)
+    subst he
+    simp only [cons_append, trun, tstep, nil_append]
+    exact ih (fun x hx => hpre x (by simp [hx]))
+
+/-- non-vacuity, and the seeded variant: handler returns, the write is parked, the timeout
+    instant passes, the transport accepts the write.  The code (`trun`): one `send_result`, the
+    result is written.  With the response sent inside the timeout scope (`trunInScope`):
+    `send_result` is called **twice** and SERVER_BUSY is written instead of the result. -/
+example :
+    (trun true true .handling [.ret 5, .timeout, .written] : TState Nat × _).2
+      = [.sendResult (.value 5), .wrote (.value 5)] ∧
+    (trunInScope true true .handling [.ret 5, .timeout, .written] : TState Nat × _).2
+      = [.sendResult (.value 5), .sendResult .busy, .wrote .busy] := by decide
+
+/-- the send-once statement for the seeded variant, refuted -/
+theorem send_once_in_scope_refuted :
+    ¬ ∀ (es : List (Ev Nat)), (sendCalls (trunInScope true true .handling es).2).length ≤ 1 := by
+  intro h
+  have := h [.ret 5, .timeout, .written]
+  revert this
+  decide
+
+/-- what the task of request member `m` hands to `send_result`, given the events it sees -/
+def taskRes (es : List (Ev R)) : Res R := (firstOutcome es).getD .busy
+
+/-- **session_batch_one_reply.**  The serving session on a batch: every request member has its
+    own task seeing its own sequence of events `evs m` (any sequences in which the handler
+    returns or the timeout fires at least once), and the tasks reach their `send_result` in any
+    order `order`.  Then every task calls `send_result` exactly once, and exactly one batch
+    response leaves, when the last task delivers; entry `k` of its results part answers member
+    `order[k]` under that member's own id and carries the handler's result if the handler
+    returned before the timeout fired, the SERVER_BUSY error if the timeout fired first (or the
+    "too large" replacement). -/
+theorem session_batch_one_reply (max inc : Nat) (encLen : Id → Res R → Nat) (ms : List Mem)
+    (order : List Nat) (hperm : order ~ reqIdx ms) (hne : reqMembers 0 ms ≠ [])
+    (evs : Nat → List (Ev R)) (hdone : ∀ m ∈ order, firstOutcome (evs m) ≠ none) :
+    (∀ m ∈ order, ∀ msg, sendCalls (trun true msg .handling (evs m)).2 = [taskRes (evs m)]) ∧
+    ∃ es tail : List (Entry (Res R)),
+      replies max inc encLen ms (order.map fun m => (m, taskRes (evs m))) = [es] ∧
+      es = errEntries 0 ms ++ tail ∧
+      ∀ (k : Nat) (hk : k < order.length), ∃ id,
+        ms[order[k]]? = some (.req id) ∧
+        (tail[k]? = some (.res (order[k]) id (taskRes (evs (order[k])))) ∨
+         tail[k]? = some (.big (order[k]) id)) := by
+  constructor
+  · intro m hm msg
+    have h := (task_sends_once true msg (evs m)).1
+    simp only [↓reduceIte] at h
+    rw [h]
+    unfold taskRes
+    cases hf : firstOutcome (evs m) with
+    | none => exact absurd hf (hdone m hm)
+    | some x => rfl
+  · have hmap : (order.map fun m => (m, taskRes (evs m))).map (·.1) = order := by
+      simp [map_map, Function.comp_def]
+    obtain ⟨_, _, es, tail, _, _, hrep, hes, _, _, _, hk⟩ :=
+      batch_one_reply max inc encLen ms (order.map fun m => (m, taskRes (evs m)))
+        (by rw [hmap]; exact hperm) hne
+    refine ⟨es, tail, hrep, hes, ?_⟩
+    intro k hk'
+    have := hk k (by simpa using hk')
+    simpa [getElem_map] using this
+
+/-- non-vacuity of `session_batch_one_reply`: members 0 and 2 are requests; member 2's handler
+    returns 5 while member 0 times out (and the write of the batch is parked while member 2's
+    timeout instant passes): one batch, SERVER_BUSY under id 1, the result 5 under id 3. -/
+example :
+    let ms : List Mem := [.req (.int 1), .notif, .req (.int 3)]
+    let evs : Nat → List (Ev Nat) := fun m => if m = 0 then [.timeout] else [.ret 5, .timeout, .written]
+    replies 0 2 (fun _ _ => 9) ms ([2, 0].map fun m => (m, taskRes (evs m)))
+      = [[.res 2 (.int 3) (.value 5), .res 0 (.int 1) .busy]] := by decide
+
 /-! ## ties to the source (facts regenerated from /repo on every run) -/
 
 open Aiorpcx.Facts.C02 in
-/-- the per-entry increment is a constant and covers the `", "` separator and the brackets, so
-    (`accounted_size_bounds_batch`) a batch whose entries are all real is not larger than the
-    limit -/
+/-- the per-entry increment is a constant and covers the `", "` separator and the brackets:
+    the hypotheses `sep ≤ inc`, `br ≤ inc` of `kept_results_within_limit`,
+    `batch_within_limit` and `accounted_size_bounds_batch` hold for the probed code.  (It says
+    nothing about the error entries of invalid members or about replacement entries: those are
+    not accounted at all, see `batch_within_limit_full_fails`.) -/
 theorem facts_size_accounting :
     ∃ inc, sizeIncrement = some inc ∧ joinSepLen ≤ inc ∧ bracketLen ≤ inc := by
   exact ⟨_, rfl, by decide, by decide⟩
+
+open Aiorpcx.Facts.C02 in
+/-- what the running size of the code under test does **not** contain is what the model's does
+    not contain: the error entry of an invalid member is not accounted (`[invalid, request]`
+    with a limit of exactly response + increment keeps the result, as `replies` does), and the
+    length of a replaced response stays in the running size (a response that would fit on its
+    own is replaced after an overflowing one, as in `replies`). -/
+theorem facts_batch_accounting :
+    invalidMembersAccounted = some (!decide (
+      replies 12 2 (fun _ (_ : Nat) => 10) [.invalid .null, .req (.int 1)] [(1, 0)]
+        = [[.err 0 .null, .res 1 (.int 1) 0]])) ∧
+    overflowSticky = some (decide (
+      replies 17 2 (fun _ (r : Nat) => r) [.req (.int 1), .req (.int 2)] [(0, 100), (1, 10)]
+        = [[.big 0 (.int 1), .big 1 (.int 2)]])) := by
+  decide
+
+/-- **mixed_batch_is_request_batch.**  A list message with at least one member that does not
+    look like a response is handled as a request batch (so that its requests are answered and
+    its invalid members get their error entries), wherever that member stands. -/
+theorem mixed_batch_is_request_batch (respLike : List Bool) (h : false ∈ respLike) :
+    isRequestBatch respLike = true := by
+  unfold isRequestBatch
+  simp only [Bool.not_eq_eq_eq_not, Bool.not_true, all_eq_false]
+  exact ⟨false, h, by simp⟩
+
+/-- non-vacuity: `[response-looking, request]` and `[request, response-looking]` are request
+    batches; `[response-looking, response-looking]` is not -/
+example : isRequestBatch [true, false] = true ∧ isRequestBatch [false, true] = true ∧
+    isRequestBatch [true, true] = false := by decide
+
+open Aiorpcx.Facts.C02 in
+/-- the dispatch of the code under test on all two-member lists over {request,
+    response-looking} is the model's `isRequestBatch` (probed through `receive_message`) -/
+theorem facts_dispatch :
+    dispatchTable.length = 4 ∧
+    ∀ row ∈ dispatchTable, isRequestBatch [row.1, row.2.1] = row.2.2 := by
+  decide
 
 open Aiorpcx.Facts.C02 in
 /-- `_send_result` at the boundary behaves as `sendResultSingle` (`oversize_single`):
